@@ -36,7 +36,7 @@ OPEN_FINDING_SCENARIOS = [
 def check(ctx):
     # body of CertifiedKey::wants_update regenerated from the source; C02Src: generated definition = model function
     return ca_common.run(ctx, "KrillModel.Props.C02", "C02", ASSUMPTIONS,
-                         translate=[("pure_fns:C02", "PureFns.lean")], extra_modules=["KrillModel.Props.C02Src"],
+                         translate=[("pure_fns:C02", "PureFnsC02.lean")], extra_modules=["KrillModel.Props.C02Src"],
                          finding_scenarios=OPEN_FINDING_SCENARIOS)
 
 
